@@ -45,6 +45,9 @@ let run (f : string array) : string =
   | "path" ->
     let p = unhex f.(2) in
     let script = f.(3) in
+    (* an empty constant cannot be told from an empty slice of an empty input *)
+    let pslice x = (match x with Const [] when p = [] -> "0:0" | _ -> pslice x) in
+    let opslice = function None -> "~" | Some s -> pslice s in
     let st = ref (segments p) in
     let items = ref [] in
     let panic = ref false in
